@@ -7,10 +7,20 @@
    and PRINTED type of the abstract declaration d (Model/Lang/Scala.v, the layout layer's input) is free of
    `/`, double and single quotes, and that the wire name of every variant - printed between double quotes
    through Rust's {:?} - is non-empty (two adjacent quotes followed by a third open a raw string) and free of
-   control characters. *)
+   control characters.
+
+   Python (reference lexer cfg_py: `#` opens a comment, a double or single quote a string or - three of them - a
+   triple-quoted string): [c15_py_item_ok it], on the IR item.  python.rs prints the JSON key of a field
+   (Field(alias="key")) and the wire name of a variant (the members of the (str, Enum) classes) RAW between double
+   quotes, and derives attribute names, Types-enum members and constant names through Unicode-table functions
+   (convert_case's Snake, str::to_uppercase).  So: the names that go through these functions are ASCII strings over
+   [A-Za-z0-9_-] (c10_key_char of Spec/C10Spec.v; constants: [A-Za-z0-9_]), where a table that is right on ASCII
+   (unicode_ok) gives ASCII results; what is printed raw between quotes is a non-empty string without quote,
+   backslash, `#` or control character; type, generic-parameter and tag / content names are free of `#` and
+   quotes.  Python has no type override (python.rs never reads one). *)
 From Coq Require Import List NArith Bool String.
 From TS Require Import Model.Str Model.Unicode Model.Types Model.Lang.Decl Model.Lang.Scala.
-From TS Require Import Spec.Lexers Spec.C15Spec Spec.C15Render.
+From TS Require Import Spec.Lexers Spec.C15Spec Spec.C15Render Spec.C10Spec.
 Import ListNotations.
 Local Open Scope N_scope.
 
@@ -36,4 +46,30 @@ Definition c15_sc_decl_plain (d : sc_decl) : bool :=
   | SCEmptyClass _ name => c15_plain C15sc name
   | SCEnum _ name gs vs => c15_plain C15sc name && forallb (c15_plain C15sc) gs && forallb c15_sc_variant_plain vs
   | SCHelperAliases l => forallb (fun nt => c15_plain C15sc (fst nt) && c15_plain C15sc (sc_show (snd nt))) l
+  end.
+
+(* ---- Python ---- *)
+(* [A-Za-z0-9_-]*: stays in this alphabet under to_snake / to_uppercase when the tables are right on ASCII *)
+Definition c15_ascii_key (s : str) : bool := forallb c10_key_char s.
+Definition c15_py_field_ok (f : rfield) : bool :=
+  c15_ascii_key (original (fid f)) && c15_ident_ok C15py (renamed (fid f)) && c15_rtype_plain C15py (fty f).
+Definition c15_py_variant_ok (v : rvariant) : bool :=
+  c15_ascii_key (original (vid (variant_shared v))) && c10_key_ok (renamed (vid (variant_shared v))) &&
+  match v with
+  | VUnit _ => true
+  | VTuple t _ => c15_rtype_plain C15py t
+  | VAnon fs _ => forallb c15_py_field_ok fs
+  end.
+Definition c15_py_item_ok (it : ritem) : bool :=
+  match it with
+  | ItStruct s =>
+    c15_plain C15py (renamed (sid s)) && forallb (c15_plain C15py) (sgenerics s) && forallb c15_py_field_ok (sfields s)
+  | ItEnum e =>
+    let sh := enum_shared e in
+    c15_plain C15py (renamed (eid sh)) && forallb (c15_plain C15py) (egenerics sh) &&
+    match e with EUnit _ => true | EAlgebraic tag content _ => c15_plain C15py tag && c15_plain C15py content end &&
+    forallb c15_py_variant_ok (evariants sh)
+  | ItAlias a =>
+    c15_plain C15py (renamed (aid a)) && forallb (c15_plain C15py) (agenerics a) && c15_rtype_plain C15py (atype a)
+  | ItConst c => forallb c10_ident_char (renamed (cid c)) && c15_rtype_plain C15py (ctype c)
   end.
